@@ -90,6 +90,9 @@ pub mod utils;
 #[cfg(test)]
 mod mock;
 
+#[cfg(litep2p_verif)]
+pub mod verif;
+
 /// Public result type used by the crate.
 pub type Result<T> = std::result::Result<T, error::Error>;
 
